@@ -131,3 +131,20 @@ Theorem C06_assemble_accepts_across_reorgs : forall (sigT msgT : Type) (sig_len0
     | _ => False
     end.
 Proof. intros. eapply reachable_chain_assembles_accepted; eauto. Qed.
+
+(* non-vacuity (ideal BLS of Corr/C06.v): two validators (keys in descending order in the parameter set), both signed the
+   block at height 2, maxHeightCertified 0 < 2 <= maxHeightPrecommitted 2: the assembled commit has bitmap 3 and is accepted;
+   with the second validator's bit cleared the same signature is rejected *)
+From LE Require Import Corr.C06.
+Example C06_example :
+  let kt : list key := [[9]; [4]] in
+  let c2 := Build_cert 12 2 30 1 1 in
+  let e := Build_env 2 0 [(1, Build_params [Build_validator 1 5 [9]; Build_validator 2 7 [4]] 12)]
+                     [(0, Build_header (Build_cert 10 0 10 1 1) 0); (1, Build_header (Build_cert 11 1 20 1 1) 0); (2, Build_header c2 0)] in
+  let ng := [Build_single_commit 12 2 1 (CSig [(0, c2)]) false; Build_single_commit 12 2 2 (CSig [(1, c2)]) false] in
+  match get_aggregate_commit agg_i e [] ng with
+  | GOk a => ac_bits a = [3] /\ verify sig_len0_i msg_of_i (fav_i kt) e a = Accept /\
+             verify sig_len0_i msg_of_i (fav_i kt) e (Build_agg_commit 2 [1] (ac_sig a)) = RejInvalid
+  | _ => False
+  end.
+Proof. vm_compute. repeat split; reflexivity. Qed.
